@@ -117,6 +117,9 @@ def mk(rng, nsel, having_kind, norder, limit, distinct, tie_first=False):
     for k in range(nsel):
         # shapes 1 and 5 (an item that STARTS with one aggregate call followed by arithmetic, e.g. avg(v) + 3) are a pinned finding (AggThenArithmeticPerRow)
         sel.append({"al": "c%d" % k, "e": item(rng, rng.choice([0, 2, 3, 4, 0, 2, 3, 4, 6]))})
+    if distinct and not gsel and rng.random() < 0.5:
+        # un-aliased plain aggregates (reported under their text, e.g. max(v)): DISTINCT still sees every delivered column
+        sel = [{"al": "%s(%s)" % (f, c), "e": aggref(f, c), "unaliased": 1} for f, c in rng.sample([(f, c) for f in FNS for c in ("v", "w")], nsel)]
     if tie_first:      # first select item = count(v) (few distinct values: ties), the others as usual
         sel[0] = {"al": "c0", "e": aggref("count", "v")}
     having = None
@@ -153,7 +156,7 @@ def mk(rng, nsel, having_kind, norder, limit, distinct, tie_first=False):
         env = {k: pyagg(d["fn"], [r.get(d["arg"]) for r in rows[:n] if r["g"] == g]) for k, d in defs.items()}
         if any(null_plus(strip(it["e"]), env) for it in sel) or (having is not None and null_plus(strip(having), env)):
             return None
-    txt = "SELECT " + ("DISTINCT " if distinct else "") + ("g, " if gsel else "") + ", ".join("%s AS %s" % (agg_sql(it["e"]), it["al"]) for it in sel)
+    txt = "SELECT " + ("DISTINCT " if distinct else "") + ("g, " if gsel else "") + ", ".join(agg_sql(it["e"]) if it.get("unaliased") else "%s AS %s" % (agg_sql(it["e"]), it["al"]) for it in sel)
     txt += " FROM stream GROUP BY g, TumblingWindow('10s')"
     if having is not None:
         txt += " HAVING " + agg_sql(having)
